@@ -41,6 +41,8 @@ def scenarios(rep, tier, seed):
         if not K.materialise(scn):
             continue
         scn["prepredict"] = i % 3 == 1
+        if i % 7 == 3:
+            scn["label_offset"] = 1 + i % 2          # class labels that do not start at 0
         scns.append(scn)
     # "all metrics": non-symmetric identifiers too (training evaluates d(sample, neighbour), prediction d(query, sample))
     for i in range(400 if thorough else 100):
